@@ -248,6 +248,189 @@ Proof.
   - intros a Ha. rewrite (Hag _ (lv_av a Ha)). apply M3, Ha.
 Qed.
 
+(* ---- both semantics at once *)
+Definition esem : sem := if sem_st (e_sem e) then ST else CO.
+
+Theorem bridge_sound (m : val) :
+  vmodels m C = true -> (forall x, In x (e_assum e) -> vtrue m x = true) -> ext esem F (S_of ids (avar e) m).
+Proof.
+  intros Hm Ha. unfold esem. destruct (sem_st (e_sem e)) eqn:Es; cbn [ext].
+  - apply bridge_sound_st; auto. now apply sem_st_true.
+  - apply bridge_sound_co; auto. now apply sem_st_false.
+Qed.
+Theorem bridge_complete X : ext esem F X ->
+  exists m : val, vmodels m C = true /\ (forall x, In x (e_assum e) -> vtrue m x = true) /\
+                  forall a, In a ids -> (m (avar e a) = true <-> In a X).
+Proof.
+  unfold esem. destruct (sem_st (e_sem e)) eqn:Es; cbn [ext]; intros HX.
+  - apply bridge_complete_st; auto. now apply sem_st_true.
+  - apply bridge_complete_co; auto. now apply sem_st_false.
+Qed.
+
+(* ================================================================ Part B *)
+(* ---- three-valued assignments: a model of the session assigns every live argument variable *)
+Lemma lit_true_zlit (m : assignment) v : 0 < v -> (lit_true m (zlit v) = true <-> value_of m v = Some true).
+Proof.
+  intros Hv. unfold lit_true. rewrite lit_var_zlit. replace (0 <? zlit v)%Z with true by (unfold zlit; lia).
+  destruct (value_of m v) as [[|]|]; split; congruence.
+Qed.
+Lemma lit_true_znlit (m : assignment) v : lit_true m (znlit v) = true <-> value_of m v = Some false.
+Proof.
+  unfold lit_true. rewrite lit_var_znlit. replace (0 <? znlit v)%Z with false by (unfold znlit; lia).
+  destruct (value_of m v) as [[|]|]; cbn; split; congruence.
+Qed.
+
+Lemma models_in (m : assignment) c : models m C = true -> In c C -> exists l, In l c /\ lit_true m l = true.
+Proof.
+  intros Hm Hc. unfold models in Hm. rewrite forallb_forall in Hm. specialize (Hm c Hc).
+  unfold sat_clause in Hm. apply existsb_exists in Hm. exact Hm.
+Qed.
+
+Lemma grp_in_C a c : In a ids -> In c (grp e a (atk a)) -> In c C.
+Proof.
+  intros Ha Hc. apply ids_has in Ha. apply (proj2 (H4 a Ha)). unfold group. destruct (e_sem e); [right| |right]; exact Hc.
+Qed.
+
+Theorem model_total (m : assignment) a :
+  models m C = true -> (forall x, In x (e_assum e) -> lit_true m x = true) -> In a ids ->
+  value_of m (avar e a) <> None.
+Proof.
+  intros Hm Hass Ha. pose proof (Hass _ (sel_assum a Ha)) as Hsel.
+  apply (lit_true_zlit m _ (svar_pos a)) in Hsel.
+  set (sl := svar e a) in *. set (tv := avar e a) in *. set (bs := map (avar e) (atk a)).
+  destruct (sem_st (e_sem e)) eqn:Es.
+  - apply sem_st_true in Es.
+    assert (Hin : forall c, In c (st_clauses (zlit sl) tv bs) -> In c C).
+    { intros c Hc. apply (grp_in_C a c Ha). unfold grp. rewrite Es. exact Hc. }
+    destruct (models_in m _ Hm (Hin ([negate (zlit sl); zlit tv] ++ map zlit bs) ltac:(unfold st_clauses; apply in_or_app; right; left; reflexivity)))
+      as (l & Hl & Hlt).
+    cbn [app In] in Hl. destruct Hl as [<-|[<-|Hl]].
+    + rewrite neg_zlit in Hlt. apply lit_true_znlit in Hlt. congruence.
+    + apply (lit_true_zlit m tv (avar_pos a)) in Hlt. congruence.
+    + apply in_map_iff in Hl. destruct Hl as (b & <- & Hb).
+      assert (Hbp : 0 < b) by (unfold bs in Hb; apply in_map_iff in Hb; destruct Hb as (x & <- & _); apply avar_pos).
+      apply (lit_true_zlit m b Hbp) in Hlt.
+      destruct (models_in m _ Hm (Hin [negate (zlit sl); znlit tv; znlit b]
+                  ltac:(unfold st_clauses; apply in_or_app; left; apply in_map_iff; exists b; auto)))
+        as (l & Hl & Hlt').
+      cbn [In] in Hl. destruct Hl as [<-|[<-|[<-|[]]]].
+      * rewrite neg_zlit in Hlt'. apply lit_true_znlit in Hlt'. congruence.
+      * apply lit_true_znlit in Hlt'. congruence.
+      * apply lit_true_znlit in Hlt'. congruence.
+  - apply sem_st_false in Es.
+    assert (Hin : forall c, In c (co_clauses (zlit sl) tv bs) -> In c C).
+    { intros c Hc. apply (grp_in_C a c Ha). unfold grp. destruct (e_sem e); try congruence; exact Hc. }
+    destruct (models_in m _ Hm (Hin ([negate (zlit sl); zlit tv] ++ map (fun b => znlit (S b)) bs)
+                ltac:(unfold co_clauses; apply in_or_app; right; apply in_or_app; left; left; reflexivity)))
+      as (l & Hl & Hlt).
+    cbn [app In] in Hl. destruct Hl as [<-|[<-|Hl]].
+    + rewrite neg_zlit in Hlt. apply lit_true_znlit in Hlt. congruence.
+    + apply (lit_true_zlit m tv (avar_pos a)) in Hlt. congruence.
+    + apply in_map_iff in Hl. destruct Hl as (b & <- & Hb). apply lit_true_znlit in Hlt.
+      destruct (models_in m _ Hm (Hin [negate (zlit sl); znlit tv; zlit (S b)]
+                  ltac:(unfold co_clauses; apply in_or_app; left; apply in_map_iff; exists b; auto)))
+        as (l & Hl & Hlt').
+      cbn [In] in Hl. destruct Hl as [<-|[<-|[<-|[]]]].
+      * rewrite neg_zlit in Hlt'. apply lit_true_znlit in Hlt'. congruence.
+      * apply lit_true_znlit in Hlt'. congruence.
+      * apply (lit_true_zlit m (S b)) in Hlt'; [congruence|lia].
+Qed.
+
+(* ---- decoding an assignment through the variable table *)
+Hypothesis Hcv : conv e.
+
+Lemma in_combine_seq {A} (m : list A) : forall s v o,
+  In (v, o) (combine (seq s (length m)) m) <-> s <= v /\ nth_error m (v - s) = Some o.
+Proof.
+  induction m as [|x r IH]; intros s v o; cbn [length seq combine In].
+  - split; [tauto|]. intros [_ H]. destruct (v - s); discriminate H.
+  - rewrite IH. split.
+    + intros [E|[K1 K2]].
+      * injection E as <- <-. rewrite Nat.sub_diag. auto.
+      * split; [lia|]. replace (v - s) with (S (v - S s)) by lia. exact K2.
+    + intros [K1 K2]. destruct (Nat.eq_dec v s) as [->|Hne].
+      * rewrite Nat.sub_diag in K2. injection K2 as <-. auto.
+      * right. split; [lia|]. replace (v - s) with (S (v - S s)) in K2 by lia. exact K2.
+Qed.
+
+Lemma in_vars_where p (m : assignment) v :
+  In v (vars_where p m) <-> 1 <= v /\ exists o, nth_error m (v - 1) = Some o /\ p o = true.
+Proof.
+  unfold vars_where. rewrite in_map_iff. split.
+  - intros ([v' o] & <- & Hin). apply filter_In in Hin. destruct Hin as [Hin Hp]. cbn [fst snd] in *.
+    apply in_combine_seq in Hin. destruct Hin as [K1 K2]. split; [exact K1|]. exists o. auto.
+  - intros (K1 & o & K2 & Hp). exists (v, o). split; [reflexivity|]. apply filter_In. split; [|exact Hp].
+    apply in_combine_seq. auto.
+Qed.
+
+Lemma value_of_nth_error (m : assignment) v o : nth_error m (v - 1) = Some o -> value_of m v = o.
+Proof. intros H. unfold value_of. apply nth_error_nth. exact H. Qed.
+Lemma value_of_some (m : assignment) v b : value_of m v = Some b -> nth_error m (v - 1) = Some (Some b).
+Proof.
+  unfold value_of. intros H. destruct (nth_error m (v - 1)) as [o|] eqn:E.
+  - rewrite (nth_error_nth _ _ _ E) in H. congruence.
+  - apply nth_error_None in E. rewrite nth_overflow in H by exact E. discriminate.
+Qed.
+
+Lemma var_to_arg_spec v id : var_to_arg (e_vars e) v = Some id <-> tbl_var (e_a2v e) id = Some v.
+Proof.
+  unfold var_to_arg. split.
+  - destruct (nth_error (e_vars e) v) as [[i| | | |]|] eqn:E; try discriminate. intros [= ->]. apply Hcv, E.
+  - intros H. rewrite (t_arg L af e Ht _ _ H). reflexivity.
+Qed.
+
+Lemma in_args_where p (m : assignment) id :
+  In id (args_where p (e_vars e) m) -> In id ids /\ p (value_of m (avar e id)) = true.
+Proof.
+  unfold args_where. rewrite in_filter_map. intros (v & Hv & Hid). apply var_to_arg_spec in Hid.
+  apply in_vars_where in Hv. destruct Hv as (_ & o & Ho & Hp). split.
+  - apply ids_has, (t_live L af e Ht). congruence.
+  - rewrite (avar_some e id v Hid), (value_of_nth_error m v o Ho). exact Hp.
+Qed.
+
+Lemma in_dyn_a2e (m : assignment) id :
+  In id (dyn_a2e (e_vars e) m) <-> In id ids /\ val_of m (avar e id) = true.
+Proof.
+  split.
+  - intros H. apply (in_args_where is_some_true m id) in H. destruct H as [K1 K2]. split; [exact K1|].
+    unfold val_of, is_some_true in *. destruct (value_of m (avar e id)) as [[|]|]; congruence.
+  - intros [K1 K2]. unfold dyn_a2e. apply in_filter_map. apply ids_has in K1.
+    destruct (live_v id K1) as (v & Hv & Ev). exists v. split; [|apply var_to_arg_spec, Hv].
+    apply in_vars_where. split; [rewrite <- Ev; apply avar_pos|]. exists (Some true). split; [|reflexivity].
+    apply value_of_some. rewrite Ev in K2. unfold val_of in K2. destruct (value_of m v) as [[|]|]; congruence.
+Qed.
+
+Lemma dyn_a2e_seteq (m : assignment) : seteq (dyn_a2e (e_vars e) m) (S_of ids (avar e) (val_of m)).
+Proof. intros id. rewrite in_dyn_a2e, in_S_of. reflexivity. Qed.
+
+(* ---- what a valid answer means *)
+Lemma valid_sat_facts (m : assignment) (extra : lit) :
+  models m C = true -> forallb (lit_true m) (e_assum e ++ [extra]) = true ->
+  ext esem F (dyn_a2e (e_vars e) m) /\ NoDup (dyn_a2e (e_vars e) m) /\ incl (dyn_a2e (e_vars e) m) ids /\
+  (forall a, In a ids -> value_of m (avar e a) <> None) /\ lit_true m extra = true.
+Proof.
+  intros Hm Ha. rewrite forallb_app in Ha. apply andb_true_iff in Ha. destruct Ha as [Ha He].
+  cbn [forallb] in He. rewrite andb_true_r in He. rewrite forallb_forall in Ha.
+  split; [|split; [|split; [|split]]].
+  - apply (ext_seteq esem F _ _ (seteq_sym _ _ (dyn_a2e_seteq m))).
+    apply bridge_sound; [apply models_vmodels, Hm|]. intros x Hx. apply lit_true_vtrue, Ha, Hx.
+  - apply (dyn_a2e_wf L af e m Ht Hcv).
+  - intros id Hid. apply in_dyn_a2e in Hid. tauto.
+  - intros a Hi. apply model_total; auto.
+  - exact He.
+Qed.
+
+Lemma valid_unsat_facts (extra : lit) X :
+  (forall v : val, vmodels v C = true -> forallb (vtrue v) (e_assum e ++ [extra]) = true -> False) ->
+  ext esem F X -> forall m : val, (forall a, In a ids -> (m (avar e a) = true <-> In a X)) -> vmodels m C = true ->
+  (forall x, In x (e_assum e) -> vtrue m x = true) -> vtrue m extra = false.
+Proof.
+  intros Hu HX m Hm1 Hm2 Hm3. destruct (vtrue m extra) eqn:E; [exfalso|reflexivity].
+  apply (Hu m Hm2). rewrite forallb_app. apply andb_true_iff. split.
+  - apply forallb_forall. exact Hm3.
+  - cbn [forallb]. now rewrite E.
+Qed.
+
 End Bridge.
 
 End DynFun.
